@@ -12,6 +12,21 @@ Definition model_key_fields : list bytes :=
    [72; 101; 97; 100; 101; 114; 115];                                        (* Headers *)
    [73; 110; 105; 116; 80; 97; 121; 108; 111; 97; 100]].                     (* InitPayload *)
 
+(* the decode tables of Model.decode, as (wire "type" string, WireMessageType name) in the order of the
+   switch arms of graphqlTransportWS.decode / graphqlWS.decode; every other type string is an error *)
+Definition model_decode_tws : list (bytes * bytes) :=
+  [([110;101;120;116], [77;101;115;115;97;103;101;68;97;116;97]);                           (* next -> MessageData *)
+   ([101;114;114;111;114], [77;101;115;115;97;103;101;69;114;114;111;114]);                  (* error -> MessageError *)
+   ([99;111;109;112;108;101;116;101], [77;101;115;115;97;103;101;67;111;109;112;108;101;116;101]);  (* complete -> MessageComplete *)
+   ([112;105;110;103], [77;101;115;115;97;103;101;80;105;110;103]);                          (* ping -> MessagePing *)
+   ([112;111;110;103], [77;101;115;115;97;103;101;80;111;110;103])].                         (* pong -> MessagePong *)
+Definition model_decode_gws : list (bytes * bytes) :=
+  [([100;97;116;97], [77;101;115;115;97;103;101;68;97;116;97]);                             (* data -> MessageData *)
+   ([101;114;114;111;114], [77;101;115;115;97;103;101;69;114;114;111;114]);                  (* error -> MessageError *)
+   ([99;111;109;112;108;101;116;101], [77;101;115;115;97;103;101;67;111;109;112;108;101;116;101]);  (* complete -> MessageComplete *)
+   ([107;97], [77;101;115;115;97;103;101;80;105;110;103]);                                   (* ka -> MessagePing *)
+   ([99;111;110;110;101;99;116;105;111;110;95;101;114;114;111;114], [77;101;115;115;97;103;101;69;114;114;111;114])].  (* connection_error -> MessageError (Err set, no Payload) *)
+
 (* shape facts the model relies on, read from the Go source by tools/props/c18.py:
    getOrDial dials with the caller's ctx (ADialCtx); a waiter never inherits an aborted result --
    own ctx error or getOrDial again, tested before result.err (AWaitDone / ARetry) -- and the
@@ -22,13 +37,23 @@ Definition model_key_fields : list bytes :=
    subsMu critical section, removeSub and the idle timer close only through it, and subscribe tests
    the flag under the same lock (close_if_empty is ONE action); the subscribe frame is written under
    the connection's ctx and the subscriber's ctx is only read before the write (ASend, no ASendCtx).
-   Each of the three repairs flips one of these to false if it is undone. *)
+   Each of the three repairs flips one of these to false if it is undone.
+   subscribe registers the handler BEFORE it looks at the subscriber's ctx, and a failure after the
+   registration leaves through removeSub (AInsert, then ASend -> SRemove: the close flow is started for a
+   dialler that is cancelled between init and subscribe); dispatch looks the id up under subsMu, calls that one
+   handler with IntoClientMessage(), removes the id iff the WIRE type is complete / error and touches nothing
+   else -- no shutdown / closeConn / teardown (UpMsg); the read loop dispatches data / error / complete, answers
+   ping, and shuts down on a read error; IntoClientMessage is into_client (an error WITHOUT payload becomes
+   MessageTypeConnectionError for that one handler); the two decode switches are the tables above, a next / data
+   payload that does not unmarshal and any other type string are errors. *)
 Lemma anchors_ok :
   anchor_connkey_fields = model_key_fields
   /\ anchor_dial_uses_caller_ctx = true /\ anchor_waiter_never_inherits_abort = true
   /\ anchor_book_before_publish = true /\ anchor_removeconn_by_key = true
   /\ anchor_subscribe_restarts_on_closed = true /\ anchor_close_decided_under_lock = true
-  /\ anchor_subscribe_write_conn_ctx = true.
+  /\ anchor_subscribe_write_conn_ctx = true
+  /\ anchor_subscribe_registers_before_ctx_test = true /\ anchor_dispatch_by_id_local = true
+  /\ anchor_into_client_message = true /\ anchor_decode_tws = model_decode_tws /\ anchor_decode_gws = model_decode_gws.
 Proof. repeat split; reflexivity. Qed.
 
 (* ---- non-vacuity examples for the theorems in Properties.v ---- *)
@@ -38,25 +63,78 @@ Close Scope N_scope.
 Definition Kx : key := (1, 1, 0, 0)%N.
 (* coalesced dial; both subscribed on connection 0 (wire ids 0 -> sub 0, 1 -> sub 1) *)
 Definition tr_two : list action :=
-  [ASub 0 Kx; UpAccept 0; ASub 1 Kx; UpAck 0; ABook 0; APublish 0; AWaitDone 1; AInsert 0; AInsert 1; ASend 1; ASend 0].
+  [ASub 0 Kx; UpAccept 0; ASub 1 Kx; UpAck 0 PTws; ABook 0; APublish 0; AWaitDone 1; AInsert 0; AInsert 1; ASend 1; ASend 0].
 
 Example ex_routing :
-  exists s log, run (init false) (tr_two ++ [UpMsg 0 1 (KData 7); UpMsg 0 0 (KData 8); UpMsg 0 5000 (KData 1);
-                                              UpMsg 0 0 KComplete; ARLRemove 0; UpMsg 0 0 (KData 9); UpMsg 0 1 (KData 3)])
+  exists s log, run (init false) (tr_two ++ [UpMsg 0 (frame_of 1 (KData 7)); UpMsg 0 (frame_of 0 (KData 8)); UpMsg 0 (frame_of 5000 (KData 1));
+                                              UpMsg 0 (frame_of 0 KComplete); ARLRemove 0; UpMsg 0 (frame_of 0 (KData 9)); UpMsg 0 (frame_of 1 (KData 3))])
                 = Some (s, log)
     /\ filter (fun e => match e with ODeliver _ _ => true | _ => false end) log
        = [ODeliver 1 (KData 7); ODeliver 0 (KData 8); ODeliver 0 KComplete; ODeliver 1 (KData 3)].
 Proof. eexists. eexists. split; vm_compute; reflexivity. Qed.
 
 Example ex_terminal_local :
-  exists s log s1 e1 s2 e2, reach false s log /\ step s (UpMsg 0 0 KComplete) = Some (s1, e1)
+  exists s log s1 e1 s2 e2, reach false s log /\ spec_class PTws (frame_of 0 KComplete) = FcSub 0 KComplete
+    /\ step s (UpMsg 0 (frame_of 0 KComplete)) = Some (s1, e1)
     /\ step s1 (ARLRemove 0) = Some (s2, e2)
     /\ (exists x, cns s 0 = Some x /\ c_subs x = [(1, 1); (0, 0)])
     /\ (exists x, cns s2 0 = Some x /\ c_subs x = [(1, 1)]).
 Proof.
-  do 6 eexists. split; [exists tr_two; vm_compute; reflexivity|].
+  do 6 eexists. split; [exists tr_two; vm_compute; reflexivity|]. split; [reflexivity|].
   split; [vm_compute; reflexivity|]. split; [vm_compute; reflexivity|].
   split; eexists; split; vm_compute; reflexivity.
+Qed.
+
+(* an error frame WITHOUT payload for wire id 0: delivered to subscription 0 alone as a connection error made by the
+   conversion, entry 0 removed, subscription 1 on the same socket keeps receiving; nobody is failed *)
+Definition f_err_nopl (w : nat) : frame := {| f_type := FError; f_id := Some w; f_pl := PNone |}.
+Example ex_error_without_payload :
+  exists s log x, run (init false) (tr_two ++ [UpMsg 0 (f_err_nopl 0); ARLRemove 0; UpMsg 0 (frame_of 1 (KData 4))]) = Some (s, log)
+    /\ spec_class PTws (f_err_nopl 0) = FcSub 0 (KConnErr false)
+    /\ filter (fun e => match e with ODeliver _ _ | OConnErr _ _ => true | _ => false end) log
+       = [ODeliver 0 (KConnErr false); ODeliver 1 (KData 4)]
+    /\ cns s 0 = Some x /\ c_subs x = [(1, 1)] /\ c_closed x = false /\ c_dead x = None /\ routing_b log = true.
+Proof.
+  do 3 eexists. split; [vm_compute; reflexivity|]. split; [reflexivity|]. split; [vm_compute; reflexivity|].
+  split; [vm_compute; reflexivity|]. split; [reflexivity|]. split; [reflexivity|]. split; [reflexivity|]. vm_compute; reflexivity.
+Qed.
+
+(* legacy graphql-ws: a connection_error frame that carries wire id 1 *)
+Definition Kl : key := (1, 2, 0, 0)%N.
+Definition tr_two_l : list action :=
+  [ASub 0 Kl; UpAccept 0; ASub 1 Kl; UpAck 0 PGws; ABook 0; APublish 0; AWaitDone 1; AInsert 0; AInsert 1; ASend 1; ASend 0].
+Definition f_connerr (w : option nat) : frame := {| f_type := FConnError; f_id := w; f_pl := PNone |}.
+Example ex_legacy_connection_error :
+  exists s log x, run (init false) (tr_two_l ++ [UpMsg 0 (f_connerr (Some 1)); ARLRemove 0;
+                     UpMsg 0 {| f_type := FData; f_id := Some 0; f_pl := PObj 4 |}]) = Some (s, log)
+    /\ filter (fun e => match e with ODeliver _ _ | OConnErr _ _ => true | _ => false end) log
+       = [ODeliver 1 (KConnErr true); ODeliver 0 (KData 4)]
+    /\ cns s 0 = Some x /\ c_subs x = [(0, 0)] /\ c_closed x = false /\ routing_b log = true.
+Proof.
+  do 3 eexists. split; [vm_compute; reflexivity|]. split; [vm_compute; reflexivity|].
+  split; [vm_compute; reflexivity|]. split; [reflexivity|]. split; [reflexivity|]. vm_compute; reflexivity.
+Qed.
+
+(* frames without id (error, legacy connection_error, complete, data): dropped, nothing changes *)
+Example ex_idless_error :
+  exists s log, run (init false) tr_two_l = Some (s, log)
+    /\ step s (UpMsg 0 (f_connerr None)) = Some (s, [OUp 0 PGws (f_connerr None)])
+    /\ step s (UpMsg 0 {| f_type := FError; f_id := None; f_pl := PNone |}) = Some (s, [OUp 0 PGws {| f_type := FError; f_id := None; f_pl := PNone |}])
+    /\ step s (UpMsg 0 {| f_type := FComplete; f_id := None; f_pl := PNone |}) = Some (s, [OUp 0 PGws {| f_type := FComplete; f_id := None; f_pl := PNone |}]).
+Proof.
+  do 2 eexists. split; [vm_compute; reflexivity|].
+  split; [vm_compute; reflexivity|]. split; vm_compute; reflexivity.
+Qed.
+
+(* a protocol violation (a next whose payload is not an execution result; a type of the other sub-protocol): the
+   socket is lost through the upstream's fault, both subscriptions are told by the read loop -- blamed on the upstream *)
+Example ex_fault_frame :
+  exists s log, run (init false) (tr_two ++ [UpMsg 0 {| f_type := FNext; f_id := Some 0; f_pl := PBad |}; ARLReadErr 0]) = Some (s, log)
+    /\ In (OConnErr 0 CUpstream) log /\ In (OConnErr 1 CUpstream) log /\ isolated_log_b log = true /\ routing_b log = true
+    /\ spec_class PTws {| f_type := FData; f_id := Some 0; f_pl := PObj 1 |} = FcFault.
+Proof.
+  do 2 eexists. split; [vm_compute; reflexivity|]. split; [vm_compute; tauto|]. split; [vm_compute; tauto|].
+  split; [vm_compute; reflexivity|]. split; vm_compute; reflexivity.
 Qed.
 
 Example ex_shared :
@@ -80,7 +158,7 @@ Qed.
 (* subscriber 1 cancels from inside its terminal callback: id 1 is removed by its own cancel and again
    by dispatch; subscriber 0 on the same connection keeps receiving, nobody gets a connection error *)
 Definition tr_double : list action :=
-  tr_two ++ [UpMsg 0 1 KComplete; ACtxCancel 1; AUnsub 1; AUnsubSend 1; ARemove 1; ARLRemove 0; UpMsg 0 0 (KData 5)].
+  tr_two ++ [UpMsg 0 (frame_of 1 KComplete); ACtxCancel 1; AUnsub 1; AUnsubSend 1; ARemove 1; ARLRemove 0; UpMsg 0 (frame_of 0 (KData 5))].
 Example ex_double_remove :
   exists s log x, run (init false) tr_double = Some (s, log)
     /\ In (ODeliver 0 (KData 5)) log /\ isolated_log_b log = true /\ routing_b log = true
@@ -94,7 +172,7 @@ Qed.
 (* cancel_isolated, non-vacuity: coalesced dial, both subscribe, one is cancelled and leaves, the
    other keeps receiving, then leaves and the connection is closed empty -- nobody fails *)
 Definition tr_iso : list action :=
-  tr_two ++ [UpMsg 0 1 (KData 7); ACtxCancel 0; AUnsub 0; AUnsubSend 0; ARemove 0; UpMsg 0 0 (KData 8); UpMsg 0 1 (KData 9);
+  tr_two ++ [UpMsg 0 (frame_of 1 (KData 7)); ACtxCancel 0; AUnsub 0; AUnsubSend 0; ARemove 0; UpMsg 0 (frame_of 0 (KData 8)); UpMsg 0 (frame_of 1 (KData 9));
              ACtxCancel 1; AUnsub 1; AUnsubSend 1; ARemove 1; AClose 1; ARemoveConn 0].
 Example ex_cancel_isolated :
   exists s log, run (init false) tr_iso = Some (s, log) /\ In (ODeliver 1 (KData 9)) log /\ In (OSrvClosed 0) log
